@@ -364,7 +364,7 @@ func (in *inst) rewriteFile(f *ast.File) {
 	if in.used {
 		astutil.AddNamedImport(in.fset, f, "vsched", vschedPath)
 	}
-	for _, p := range []string{"sync", "sync/atomic", "context"} {
+	for _, p := range []string{"sync", "sync/atomic", "context", "runtime"} {
 		if !astutil.UsesImport(f, p) {
 			astutil.DeleteImport(in.fset, f, p)
 		}
@@ -449,6 +449,12 @@ func (in *inst) post(c *astutil.Cursor) bool {
 				c.Replace(vs(n.Sel.Name))
 			case "WithCancelCause", "WithTimeoutCause", "WithDeadlineCause", "AfterFunc", "WithoutCancel":
 				fatalf("unsupported construct %s: context.%s", in.pos(n), n.Sel.Name)
+			}
+		case in.pkgIdent(n.X, "runtime"):
+			if n.Sel.Name == "Gosched" {
+				// a spin loop that yields to the Go scheduler yields to ours
+				in.used = true
+				c.Replace(vs("Gosched"))
 			}
 		case in.pkgIdent(n.X, "time"):
 			switch n.Sel.Name {
